@@ -2,6 +2,7 @@ package simkit
 
 import (
 	"bytes"
+	"io"
 	"os"
 	"syscall"
 	"crypto/sha256"
@@ -518,6 +519,19 @@ func (w *World) applyLocked(c *Call, f Kind, choice, nparked int) result {
 	cl.Calls++
 	if c.Op.IsWrite() {
 		cl.Writes++
+	}
+	if c.lazy != nil {
+		// the upload reads its payload now (see lazyPayload)
+		if fresh, err := io.ReadAll(c.lazy); err == nil {
+			if !bytes.Equal(fresh, c.Data) {
+				w.Probe("put-payload-changed-in-flight")
+			}
+			if fresh == nil {
+				fresh = []byte{}
+			}
+			c.Data = fresh
+		}
+		c.lazy = nil
 	}
 	switch f {
 	case FErr:
